@@ -223,6 +223,30 @@ def sibling_binding_pair(rng):
     return flat, nested, {"inner_bind": True, "S": ["scale", "shift"], "sibling_binding": True}
 
 
+RUN_OPTION_NAMES = ["max_iterations", "select", "entrypoint", "error_handling", "on_missing", "on_internal_override", "max_concurrency", "values", "event_processors", "graph", "self"]
+
+
+def option_named_input_pair(rng):
+    """An inner input whose NAME is also the name of an option of runner.run() (max_iterations, select, values ...):
+    it is an input like any other - supplied by the caller, bound or defaulted - and must cross the wrapper
+    boundary as a value, at depth 1-2."""
+    nm = rng.choice(RUN_OPTION_NAMES)
+    other = rng.choice([n for n in RUN_OPTION_NAMES if n != nm])
+    f = {"k": "fn", "name": "solve", "fid": "solve", "params": [{"n": "y"}, {"n": nm, "d": f"def:{nm}"}], "outs": ["z"]}
+    g = {"k": "fn", "name": "post", "fid": "post", "params": [{"n": "z"}, {"n": other}], "outs": ["w"]}
+    flat = {"name": "g", "nodes": copy.deepcopy([f, g]), "bind": {}}
+    inner_nodes = [copy.deepcopy(f)] + ([copy.deepcopy(g)] if rng.random() < 0.5 else [])
+    sub = {"k": "sub", "name": "box", "prog": {"name": "box", "nodes": inner_nodes, "bind": {}}}
+    if rng.random() < 0.4:
+        sub = {"k": "sub", "name": "box2", "prog": {"name": "box2", "nodes": [sub], "bind": {}}}
+    rest = [] if len(inner_nodes) == 2 else [copy.deepcopy(g)]
+    nested = {"name": "g", "nodes": [sub] + rest, "bind": {}}
+    if rng.random() < 0.3:
+        flat["bind"] = {nm: f"bound:{nm}"}
+        nested["bind"] = {nm: f"bound:{nm}"}
+    return flat, nested, {"S": [n["name"] for n in inner_nodes], "option_named_input": nm}
+
+
 def mutable_default_pair(rng):
     """Flat DAG with 1-2 nodes that mutate a default-valued mutable argument in place, and the same program
     with those nodes wrapped (depth 1-2, optionally with a renamed wrapper input; sometimes two wrappers around
@@ -306,6 +330,12 @@ def run(ctx):
             ok = compare_pair(ctx, A, B, info, "two-level-binding")
             ctx.obs["two_level_binding_pairs"] += 1
             ctx.case({"s": gen.shape_of(B), "bind2": True}, ok)
+            continue
+        if i % 12 == 7:
+            A, B, info = option_named_input_pair(rng)
+            ok = compare_pair(ctx, A, B, info, "option-named-input")
+            ctx.obs["option_named_input_pairs"] += 1
+            ctx.case({"s": gen.shape_of(B), "opt": info["option_named_input"]}, ok)
             continue
         if i % 12 == 1:
             A, B, info = sibling_binding_pair(rng)
